@@ -120,7 +120,8 @@ def build(work, tier):
     # IQ extension: loop-free payload codecs of QXmppIq subclasses and the QXmppIq header
     import iq
     kits = [kit]
-    for fn in (iq.payload_proofs, iq.header_proofs, iq.item_proofs):
+    import ext
+    for fn in (iq.payload_proofs, iq.header_proofs, iq.item_proofs, ext.jmi_proofs, ext.error_proofs):
         k, ps = fn('C02', work, mk_proof, 'fixpoint')
         kits.append(k)
         proofs += ps
@@ -128,7 +129,7 @@ def build(work, tier):
         # quick tier: the finding-restricted runs of the two largest composites only repeat what the member codec's own run
         # reports, and the (bounded, 160 s) fixpoint run of Sasl2::StreamFeature is left to the thorough tier
         proofs = [p for p in proofs if not ((getattr(p, 'finding', None) and p.id.split('_fixpoint')[0] in ('Sasl2Success', 'Sasl2StreamFeature')) or p.id.startswith('Sasl2StreamFeature_'))]
-    text_all = open(os.path.join(QT, 'xml.h')).read() + open(os.path.join(QT, 'conv.h')).read() + open(os.path.join(QT, 'opaque.h')).read() + codec.MODEL_GLUE + iq.TZO_MODEL + iq.HDR_STUBS + iq.presence.STUBS + iq.ITEM_MODEL
+    text_all = open(os.path.join(QT, 'xml.h')).read() + open(os.path.join(QT, 'conv.h')).read() + open(os.path.join(QT, 'opaque.h')).read() + codec.MODEL_GLUE + iq.TZO_MODEL + iq.HDR_STUBS + iq.presence.STUBS + iq.ITEM_MODEL + ext.JMI_STUBS
     npad = sum(t.count('xw_pad(') for k in kits for t in k.texts.values())
     functions, seen = [], set()
     for k in kits:
@@ -143,7 +144,7 @@ def build(work, tier):
     return {
         'proofs': proofs, 'functions': functions, 'dropped': [d for k in kits for d in k.b.dropped], 'fired': fired,
         'hooks': [HOOKS_NOTE % npad],
-        'assumed': ASSUMED + iq.ASSUMED_IQ + ['every proof runs with CBMC\'s safety checks on the lowered text for ALL inputs: array bounds, pointer validity, signed overflow, division by zero, shift width, and the std::array::at index obligation (assertion safety.at_index_in_range)'],
+        'assumed': ASSUMED + iq.ASSUMED_IQ + ext.ASSUMED_EXT + ['every proof runs with CBMC\'s safety checks on the lowered text for ALL inputs: array bounds, pointer validity, signed overflow, division by zero, shift width, and the std::array::at index obligation (assertion safety.at_index_in_range)'],
         'assumes': scan_assumes(text_all),
         'not_covered': [
             'termination and resource use of Qt\'s DOM / XML reader, crashes inside Qt, deep nesting, huge attributes (strings are opaque values here)',
